@@ -273,6 +273,25 @@ fn case_udiff(kv: &Kv) -> String {
                 u.to_writer(&mut out).unwrap();
                 out
             }
+            "writer1" => {
+                // a conforming io::Write that accepts at most one byte per write() call
+                struct OneByte(Vec<u8>);
+                impl std::io::Write for OneByte {
+                    fn write(&mut self, buf: &[u8]) -> std::io::Result<usize> {
+                        if buf.is_empty() {
+                            return Ok(0);
+                        }
+                        self.0.push(buf[0]);
+                        Ok(1)
+                    }
+                    fn flush(&mut self) -> std::io::Result<()> {
+                        Ok(())
+                    }
+                }
+                let mut out = OneByte(vec![]);
+                u.to_writer(&mut out).unwrap();
+                out.0
+            }
             "hunks" => {
                 // per-hunk writer, file header written by hand
                 let mut out = vec![];
@@ -574,6 +593,31 @@ fn case_repeat(kv: &Kv) -> String {
     let reps: usize = kv["reps"].parse().unwrap();
     let base = similar::capture_diff(alg, &old[..], os..oe, &new[..], ns..ne);
     let mut all_same = true;
+    // item types whose (legal) Hash collides: equality pattern unchanged, hashes coarse / constant
+    #[derive(PartialEq, Eq, PartialOrd, Ord, Clone, Copy)]
+    struct Coarse(u64);
+    impl std::hash::Hash for Coarse {
+        fn hash<H: std::hash::Hasher>(&self, state: &mut H) {
+            (self.0 % 4).hash(state)
+        }
+    }
+    #[derive(PartialEq, Eq, PartialOrd, Ord, Clone, Copy)]
+    struct Constant(u64);
+    impl std::hash::Hash for Constant {
+        fn hash<H: std::hash::Hasher>(&self, _state: &mut H) {}
+    }
+    {
+        let o2: Vec<Coarse> = old.iter().map(|x| Coarse(*x)).collect();
+        let n2: Vec<Coarse> = new.iter().map(|x| Coarse(*x)).collect();
+        if similar::capture_diff(alg, &o2[..], os..oe, &n2[..], ns..ne) != base {
+            all_same = false;
+        }
+        let o3: Vec<Constant> = old.iter().map(|x| Constant(*x)).collect();
+        let n3: Vec<Constant> = new.iter().map(|x| Constant(*x)).collect();
+        if similar::capture_diff(alg, &o3[..], os..oe, &n3[..], ns..ne) != base {
+            all_same = false;
+        }
+    }
     // relabellings: order preserving (x -> 3x+7), order reversing (x -> M - x), hash scrambling
     let maps: Vec<Box<dyn Fn(u64) -> u64 + Send + Sync>> = vec![
         Box::new(|x| x),
